@@ -2834,6 +2834,11 @@ bool DGXMLScanner::scanAttValue(  const   XMLAttDef* const    attDef
                                                              type == XMLAttDef::NmTokens)
                                    :false;
 
+    //  Validity Constraint for Standalone document declaration, XML 1.0,
+    //  Section 2.9: set while a change of this value by the normalization
+    //  that its external declaration asks for still has to be reported.
+    bool  checkStandaloneNorm = fStandalone && fValidate && isAttTokenizedExternal;
+
     //  Loop until we get the attribute value. Note that we use a double
     //  loop here to avoid the setup/teardown overhead of the exception
     //  handler on every round.
@@ -2858,7 +2863,12 @@ bool DGXMLScanner::scanAttValue(  const   XMLAttDef* const    attDef
             if (nextCh == quoteCh)
             {
                 if (curReader == fReaderMgr.getCurrentReaderNum())
+                {
+                    // Trailing whitespace gets dropped, which changes the value too
+                    if (curState == InWhitespace && firstNonWS && checkStandaloneNorm)
+                        fValidator->emitError(XMLValid::NoAttNormForStandalone, attrName);
                     return true;
+                }
 
                 // Watch for spillover into a previous entity
                 if (curReader > fReaderMgr.getCurrentReaderNum())
@@ -2970,6 +2980,14 @@ bool DGXMLScanner::scanAttValue(  const   XMLAttDef* const    attDef
                     }
                     else
                     {
+                        //  A second whitespace character in a row after some
+                        //  content: the run collapses to one space (a leading
+                        //  run has been reported at its first character).
+                        if (firstNonWS && checkStandaloneNorm)
+                        {
+                            fValidator->emitError(XMLValid::NoAttNormForStandalone, attrName);
+                            checkStandaloneNorm = false;
+                        }
                         continue;
                     }
                 }
@@ -2980,16 +2998,14 @@ bool DGXMLScanner::scanAttValue(  const   XMLAttDef* const    attDef
                     {
                         curState = InWhitespace;
 
-                        // Check Validity Constraint for Standalone document declaration
-                        // XML 1.0, Section 2.9
-                        if (fStandalone && fValidate && isAttTokenizedExternal)
+                        //  Can't have a standalone document declaration of "yes" if
+                        //  attribute values are subject to normalisation: leading
+                        //  whitespace is dropped. A single whitespace character
+                        //  between tokens ends up as one space either way.
+                        if (!firstNonWS && checkStandaloneNorm)
                         {
-                            if (!firstNonWS || (nextCh != chSpace && fReaderMgr.lookingAtSpace()))
-                            {
-                                 // Can't have a standalone document declaration of "yes" if  attribute
-                                 // values are subject to normalisation
-                                 fValidator->emitError(XMLValid::NoAttNormForStandalone, attrName);
-                            }
+                            fValidator->emitError(XMLValid::NoAttNormForStandalone, attrName);
+                            checkStandaloneNorm = false;
                         }
                         continue;
                     }
